@@ -6,7 +6,7 @@ use crate::gen::*;
 use crate::gen_mesh::*;
 use crate::oracle::{tri_normal, Soup};
 use engeom::common::{SelectOp, Selection};
-use engeom::Vector3;
+use engeom::{Point3, Vector3};
 use proptest::prelude::*;
 use serde::{Deserialize, Serialize};
 use std::collections::BTreeSet;
@@ -40,6 +40,9 @@ pub struct Case {
     pub reference: MeshSpec,
     pub start: Start,
     pub steps: Vec<(Criterion, Op)>,
+    /// vertices no face references, each inserted at a position of the vertex list (face indices shift accordingly)
+    #[serde(default)]
+    pub orphans: Vec<(u16, P3)>,
 }
 
 const REPEATS: usize = 6;
@@ -57,20 +60,20 @@ impl Property for C14 {
     type Case = Case;
     const ID: &'static str = "C14";
     fn rule() -> &'static str {
-        "a case is a history: a mesh (grids with creases/waves, L-shapes, tubes, fans, boxes, prisms, icospheres; adjacent faces share vertices but differ in normal), a reference mesh posed nearby (offset copies, tilted planes, partial overlaps), a starting selection (none / all / arbitrary index set) and 1-5 steps of (facing | near-mesh with distance, optional planar and optional angle tolerance, all-vertices or any-vertex) x (Add | Remove | Keep). Model: each face's predicate is evaluated from scratch by the harness (own closest-point scan; three-valued with a 1e-9 don't-care band) and combined by set union / difference / intersection; the library result is compared after every step and recomputed 6 times (hash order). Non-trivial: >=2 steps, at least one near-mesh step with an angle tolerance, and the selection changes in >=2 steps. Distinct = distinct canonical JSON."
+        "a case is a history: a mesh (grids with creases/waves, L-shapes, tubes, fans, boxes, prisms, icospheres; adjacent faces share vertices but differ in normal), a reference mesh posed nearby (offset copies, tilted planes, partial overlaps), a quarter of the meshes carrying 1-3 vertices that no face references, a starting selection (none / all / arbitrary index set) and 1-5 steps of (facing | near-mesh with distance, optional planar and optional angle tolerance, all-vertices or any-vertex) x (Add | Remove | Keep). Model: each face's predicate is evaluated from scratch by the harness (own closest-point scan; three-valued with a 1e-9 don't-care band) and combined by set union / difference / intersection; the library result is compared after every step and recomputed 6 times (hash order). Non-trivial: >=2 steps, at least one near-mesh step with an angle tolerance, and the selection changes in >=2 steps. Distinct = distinct canonical JSON."
     }
     fn cases(t: Tier) -> u32 {
         t.pick(240_000, 1_000_000)
     }
     fn expected_labels() -> Vec<&'static str> {
-        vec!["start_none", "start_all", "start_indices", "facing", "near", "near_angle", "near_planar", "all_points", "any_point", "add", "remove", "keep", "create_mesh", "changed>=2"]
+        vec!["start_none", "start_all", "start_indices", "facing", "near", "near_angle", "near_planar", "all_points", "any_point", "add", "remove", "keep", "create_mesh", "changed>=2", "unreferenced_vertices"]
     }
     fn strategy(t: Tier) -> BoxedStrategy<Case> {
         let gmax = t.pick(6, 10);
         let target = prop_oneof![3 => open_kind(gmax), 2 => closed_kind(1)].boxed();
         let reference = prop_oneof![3 => grid_kind(6, false), 1 => closed_kind(1)].boxed();
-        (clean_mesh(target, 1.5), clean_mesh(reference, 1.0), prop_oneof![Just(Start::None), Just(Start::All), prop::collection::vec(any::<u16>(), 0..12).prop_map(Start::Indices)], prop::collection::vec((criterion(), prop::sample::select(vec![Op::Add, Op::Remove, Op::Keep])), 1..6))
-            .prop_map(|(mesh, reference, start, steps)| Case { mesh, reference, start, steps })
+        (clean_mesh(target, 1.5), clean_mesh(reference, 1.0), prop_oneof![Just(Start::None), Just(Start::All), prop::collection::vec(any::<u16>(), 0..12).prop_map(Start::Indices)], prop::collection::vec((criterion(), prop::sample::select(vec![Op::Add, Op::Remove, Op::Keep])), 1..6), prop_oneof![3 => Just(vec![]), 1 => prop::collection::vec((any::<u16>(), p3(3.0)), 1..4)])
+            .prop_map(|(mesh, reference, start, steps, orphans)| Case { mesh, reference, start, steps, orphans })
             .boxed()
     }
     fn check(case: &Case) -> Verdict {
@@ -196,7 +199,19 @@ fn to_selectop(o: Op) -> SelectOp {
 
 fn check(case: &Case) -> Verdict {
     let mut cx = Ctx::new();
-    let (Some(bm), Some(br)) = (case.mesh.build(), case.reference.build()) else { return Verdict::Discard("empty mesh") };
+    let (Some(mut bm), Some(br)) = (case.mesh.build(), case.reference.build()) else { return Verdict::Discard("empty mesh") };
+    for (pos, p) in &case.orphans {
+        let k = idx(*pos, bm.v.len() + 1);
+        bm.v.insert(k, pt3(p));
+        for f in bm.f.iter_mut() {
+            for i in f.iter_mut() {
+                if *i as usize >= k {
+                    *i += 1;
+                }
+            }
+        }
+    }
+    cx.label_if(!case.orphans.is_empty(), "unreferenced_vertices");
     let (msoup, rsoup) = (bm.soup(), br.soup());
     for s in [&msoup, &rsoup] {
         for i in 0..s.f.len() {
@@ -371,15 +386,20 @@ fn check(case: &Case) -> Verdict {
             let ok = (0..3).any(|r| (0..3).all(|j| got[j] == exp[(j + r) % 3]));
             ensure!(ok, "C14/create_from_indices/triangle", "face {k} of the new mesh is {:?}, selected face {fi} is {:?} (coordinates or winding differ)", got, exp);
         }
-        // vertex list = exactly the used vertices, ascending original order, no duplicates
+        // vertex list = exactly the used vertices, each once (the order is the library's business)
         let mut used: BTreeSet<u32> = BTreeSet::new();
         for fi in &final_sel {
             for v in msoup.f[*fi] {
                 used.insert(v);
             }
         }
-        let exp: Vec<_> = used.iter().map(|v| msoup.v[*v as usize]).collect();
-        ensure!(sub.vertices() == &exp[..], "C14/create_from_indices/vertices", "new mesh has {} vertices, the selection uses {} (order or content differs)", sub.vertices().len(), exp.len());
+        let bits = |p: &Point3| [p.x.to_bits(), p.y.to_bits(), p.z.to_bits()];
+        let mut exp: Vec<_> = used.iter().map(|v| bits(&msoup.v[*v as usize])).collect();
+        let mut got: Vec<_> = sub.vertices().iter().map(bits).collect();
+        exp.sort();
+        got.sort();
+        ensure!(got == exp, "C14/create_from_indices/vertices", "new mesh has {} vertices, the selection uses {} (count or content differs)", got.len(), exp.len());
+
         // create_mesh() on the filter gives the same triangles as a set
         let mut f = mesh.face_select(start_sel());
         for (c, op) in &case.steps {
@@ -387,6 +407,9 @@ fn check(case: &Case) -> Verdict {
         }
         let cm = f.create_mesh();
         ensure!(cm.faces().len() == final_sel.len(), "C14/create_mesh/face_count", "create_mesh() has {} faces for a selection of {}", cm.faces().len(), final_sel.len());
+        let mut got_cm: Vec<_> = cm.vertices().iter().map(bits).collect();
+        got_cm.sort();
+        ensure!(got_cm == exp, "C14/create_mesh/vertices", "create_mesh() has {} vertices, the selection uses {} (count or content differs)", got_cm.len(), exp.len());
         let key = |m: &engeom::Mesh, k: usize| {
             let t = m.faces()[k];
             let mut pts: Vec<[u64; 3]> = t.iter().map(|i| { let p = m.vertices()[*i as usize]; [p.x.to_bits(), p.y.to_bits(), p.z.to_bits()] }).collect();
